@@ -660,11 +660,11 @@ def twin_c16(prog, impl_run, rnd):
         bad += compare_variant(what, ops, res, t0, impl_run(p), idx)
     # DeferAcyclicVerification: compared against the eager run, and only when the eager run reports no cycle
     eager = copy.deepcopy(base)
-    eager["cfg"]["defer"] = False
+    set_cfg(eager, "defer", False)
     te = t0 if not base["cfg"]["defer"] else impl_run(eager)
     if len(ops_of(te)) == len(ops) and not fatal_of(te) and not any((verr(o["v"]) or {}).get("cyc") for o in ops_of(te)):
         lazy = copy.deepcopy(base)
-        lazy["cfg"]["defer"] = True
+        set_cfg(lazy, "defer", True)
         tl = t0 if base["cfg"]["defer"] else impl_run(lazy)
         bad += compare_variant("DeferAcyclicVerification enabled", ops, ops_of(te), te, tl, list(range(len(ops))))
     return bad, base
@@ -715,13 +715,33 @@ def compare_variant(what, ops, res, t0, t1, idx):
     return []
 
 
+def set_cfg(prog, key, val):
+    """change one container option of a program, keeping an explicit option sequence consistent with it"""
+    cfg = dict(prog["cfg"])
+    cfg[key] = val
+    if cfg.get("optseq"):
+        seq = [list(x) for x in cfg["optseq"]]
+        if key == "dry":
+            idx = [i for i, x in enumerate(seq) if x[0] == "dry"]
+            if idx:
+                seq[idx[-1]] = ["dry", val]
+            else:
+                seq.append(["dry", val])
+        else:
+            seq = [x for x in seq if x[0] != key]
+            if val:
+                seq.append([key, True])
+        cfg["optseq"] = seq
+    prog["cfg"] = cfg
+
+
 def twin_c17(prog, impl_run):
     """dry container vs normal container with all-ok functions: same dig-originated verdicts"""
     bad = []
     a = all_ok_script(prog)
-    a["cfg"] = dict(a["cfg"], dry=False)
+    set_cfg(a, "dry", False)
     b = copy.deepcopy(a)
-    b["cfg"] = dict(b["cfg"], dry=True)
+    set_cfg(b, "dry", True)
     ta, tb = impl_run(a), impl_run(b)
     if fatal_of(ta) != fatal_of(tb):
         bad.append("process-level outcome differs: normal=%s dry=%s" % (fatal_of(ta), fatal_of(tb)))
